@@ -29,13 +29,13 @@ class HangBudget(Exception):
 HANGS = []      # (tool, schema text) of runs that did not stop within the time limit
 
 
-def run_tool(bdir, tool, exp_path, wdir, opts=()):
+def run_tool(bdir, tool, exp_path, wdir, opts=(), extra_env=None):
     d = os.path.join(wdir, "out-" + tool)
     shutil.rmtree(d, ignore_errors=True)
     os.makedirs(d)
     # the schemas of this check are a few dozen lines: a run takes milliseconds; one that is still going after 40 s hangs
     # fresh heap memory is filled with a non-zero byte, so that a field nobody initialised does not pass for NULL / 0 by luck
-    rc, out, err = shb([os.path.join(bdir, "bin", tool)] + list(opts) + [exp_path], cwd=d, timeout=40, env={"MALLOC_PERTURB_": "165"})
+    rc, out, err = shb([os.path.join(bdir, "bin", tool)] + list(opts) + [exp_path], cwd=d, timeout=40, env=dict({"MALLOC_PERTURB_": "165"}, **(extra_env or {})))
     if rc == 124 and err.endswith(b"TIMEOUT"):
         try:
             HANGS.append((tool, open(exp_path, encoding="latin-1").read()))
